@@ -109,7 +109,9 @@ def allowedClasses (eng : String) (e : Ast) : List String :=
   (if anyNode isCompound e then ["duplicate-labelset"] else []) ++
   (if anyNode (fun x => match x with | .bin .. => true | _ => false) e then ["many-to-many", "multiple-matches", "dup-match-group"] else []) ++
   (if anyNode (isAgg ["topk", "bottomk", "limitk", "limit_ratio"]) e then ["param"] else []) ++
-  (if anyNode (isAgg ["count_values"]) e then ["invalid-label"] else []) ++
+  -- histogram_quantiles validates its quantile label name since fixes/C33-F2.patch (before: finding C33-F2,
+  -- an internal error, which no class list admits)
+  (if anyNode (isAgg ["count_values"]) e || anyNode (isCall ["histogram_quantiles"]) e then ["invalid-label"] else []) ++
   (if anyNode (isCall ["label_replace", "label_join"]) e then ["label-fn-arg"] else []) ++
   (if anyNode (isCall ["double_exponential_smoothing"]) e then ["smoothing-factor"] else []) ++
   (if anyNode hasExt e then ["ext-range"] else []) ++
